@@ -68,6 +68,16 @@ def r2(ctx: Ctx) -> None:
             ok = False
             found = "matching is not conditioned on session.with_order_execution"
         ctx.check(ok, f, b.accept.node, f"{b.phase} {b.kind}: matching round iff execution switch, on the order's own market", f"if session.with_order_execution: {market_of(b.accept)}._execution()", found)
+        # the switch is read when the decision is taken: a hook run for an earlier order of the same
+        # submission (trading halt) may have cleared it since
+        import ast as _ast
+
+        gnodes = [nd for c, pol, nd in b.path.conds if strip_ver(c)[0] == "attr" and strip_ver(c)[2] == "with_order_execution"]
+        if gnodes:
+            nd = gnodes[-1]
+            fresh = nd is not None and any(isinstance(x, _ast.Attribute) and x.attr == "with_order_execution" for x in _ast.walk(nd))
+            ctx.check(fresh, f, nd if nd is not None else b.accept.node, f"{b.phase} {b.kind}: the execution switch is read at the moment of the decision", "`if session.with_order_execution:` evaluated per order",
+                      "read per order" if fresh else f"the decision tests `{_ast.unparse(nd) if nd is not None else '?'}`, a copy taken before the orders of the submission were processed")
     ctx.check(kinds == {("order", "normal"), ("cancel", "normal"), ("order", "hft"), ("cancel", "hft")}, f, f.node, "orders and cancels are handled in the normal and the high-frequency phase", "4 kinds", str(sorted(kinds)))
     for s in ctx.cg.sites_calling(EXEC):
         ctx.check(caller_ok(ctx, s.caller, lambda g: g.qualname == HO), s.caller, s.node, f"caller of {EXEC}", HO, s.caller.qualname)
@@ -378,3 +388,41 @@ def h1(ctx: Ctx) -> None:
     from .c18 import r5 as session_keys_rule
 
     session_keys_rule(ctx)
+
+
+@rule("C09.R6", "every agent is filed in exactly one of the two populations the phases draw from, and the high-frequency one holds exactly the instances of HighFrequencyAgent (subclasses at any depth included)", "T6 partition by one decision", floor=2)
+def r6(ctx: Ctx) -> None:
+    q = "Simulator._add_agent"
+    f = ctx.func(q)
+    HF, NF = "self.high_frequency_agents", "self.normal_frequency_agents"
+    n = 0
+    for p in normal_paths(ctx.paths(q)):
+        app = [e for e in calls(p) if e.name == "append" and e.recv is not None and key(strip_ver(e.recv)) in (HF, NF) and e.args and key(e.args[0]) == "agent"]
+        n += 1
+        ctx.check(len(app) == 1, f, f.node, "a registered agent enters exactly one population", "one append to high_frequency_agents or normal_frequency_agents", f"{len(app)} append(s)")
+        if len(app) != 1:
+            continue
+        to_hf = key(strip_ver(app[0].recv)) == HF
+        dec = []
+        for c, pol, node in p.conds:
+            c = strip_ver(c)
+            if "HighFrequencyAgent" in key(c):
+                dec.append((c, pol))
+        if len(dec) != 1:
+            ctx.unrec(f, app[0].node, "the population is chosen by one test of the agent's class", "isinstance(agent, HighFrequencyAgent)", f"{len(dec)} decision(s) mention HighFrequencyAgent")
+            continue
+        c, pol = dec[0]
+        k = key(c)
+        exact = c[0] == "call" and key(c[1]) in ("isinstance",) and len(c[2]) == 2 and key(c[2][0]) == "agent" and key(c[2][1]).endswith("HighFrequencyAgent")
+        exact = exact or (c[0] == "call" and key(c[1]) == "issubclass" and len(c[2]) == 2 and key(c[2][0]) in ("type(agent)", "agent.__class__") and key(c[2][1]).endswith("HighFrequencyAgent"))
+        shallow = "__bases__" in k or (c[0] == "cmp" and c[1] in ("is", "==") and any(key(x) in ("type(agent)", "agent.__class__") for x in (c[2], c[3])))
+        if exact:
+            ctx.check(pol == to_hf, f, app[0].node, "instances of HighFrequencyAgent go to the high-frequency population, all others to the normal one", "isinstance -> high_frequency_agents; else normal_frequency_agents", f"isinstance={pol} -> {'high' if to_hf else 'normal'}")
+        elif shallow:
+            ctx.violated(f, app[0].node, "the class test covers subclasses at any depth", "isinstance(agent, HighFrequencyAgent)", f"{k}: an indirect subclass (e.g. a user class derived from ArbitrageAgent) is filed as a normal agent")
+        else:
+            ctx.unrec(f, app[0].node, "the population is chosen by an instance test", "isinstance(agent, HighFrequencyAgent)", k)
+    ctx.require(n >= 2, f"{q}: registering paths not found")
+    for attr in ("high_frequency_agents", "normal_frequency_agents"):
+        for w in ctx.cg.writers_of("Simulator", attr):
+            ctx.check(caller_ok(ctx, w.func, lambda g: g.qualname in ("Simulator.__init__", q)), w.func, w.node, f"writer of Simulator.{attr}", "Simulator.__init__ | Simulator._add_agent", w.func.qualname)
